@@ -325,11 +325,13 @@ func (w *vhWorld) vhAnyRequest(nRepos, nMethods int) *vhReq {
 	case 6:
 		r.route = "tags"
 		r.path = "/v2/" + r.repo + "/tags/list" + noise
-		switch vh.Choice("n", 3) {
+		switch vh.Choice("n", 4) {
 		case 1:
 			r.q.Set("n", vh.IntMarker("n"))
 		case 2:
 			r.q.Set("n", "x")
+		case 3:
+			r.q.Set("n", vhOddNumerals[vh.Choice("odd", len(vhOddNumerals))])
 		}
 		switch vh.Choice("last", 3) {
 		case 1:
